@@ -36,6 +36,11 @@ ENTRY_TEMPLATES = [
     dict(key='CA1', ca=True, principals=['*', '!carol,al*'], no_pty=True),
     dict(key='CA2', ca=True, principals=['alice'], frm='ok'),
     dict(key='CA1', ca=True, frm='bad'),
+    dict(key='K1', frm='ok'),
+    dict(key='CA1', ca=True, frm='ok', no_touch=True),
+    dict(key='SK1'),
+    dict(key='SK1', no_touch=True, command='skcmd'),
+    dict(key='CA1', ca=True, no_touch=True),
 ]
 
 
@@ -65,6 +70,8 @@ def gen_world(rng):
         w['async'][k] = rng.random() < 0.5
     # applications written like examples/simple_keyed_server.py: no key file for some users -> keys left alone
     w['installs'] = {u: False for u in ('alice', 'bob', 'root', 'guest', 'carol', '') if rng.random() < 0.25}
+    # the address the server sees: IPv4, IPv6, or none at all (UNIX-domain socket / tunnel without peername)
+    w['peer'] = rng.choice(['ipv4', 'ipv4', 'ipv4', 'ipv4', 'ipv6', 'none'])
     return w
 
 
@@ -92,10 +99,12 @@ def gen_pk(rng, w, u, allusers):
         other = rng.choice(allusers)
         key = rng.choice(valid_key_refs(w, other) or ['K1'])
     elif x < 0.95:
-        key = rng.choice(['K1', 'K2', 'K3', 'K4', 'K5'] + ['cert:' + n for n in E.pool().cert_spec])
+        key = rng.choice(['K1', 'K2', 'K3', 'K4', 'K5', 'SK1'] + ['cert:' + n for n in E.pool().cert_spec])
     else:
         key = 'garbage'
     spec = dict(user=u, method='publickey', key=key, signed=rng.random() < 0.7)
+    if key in ('SK1', 'cert:CS1', 'cert:CS2') and rng.random() < 0.5:
+        spec['up'] = False                # security-key signature without the user-presence flag
     if spec['signed']:
         y = rng.random()
         sg = {}
@@ -326,6 +335,43 @@ def scenario_list():
         ('req', dict(user='alice', method='none')), ('settle',), ('complete', 0), ('settle',),
         ('req', dict(user='bob', method='publickey', key='K1', signed=True)), ('settle',), ('complete', 1), ('settle',),
         ('req', dict(user='bob', method='publickey', key='K2', signed=True)), ('settle',)]))
+    # from= restrictions on a connection without an IP peer address cannot be checked and must not match;
+    # an unrestricted key still works there; IPv6 peers are matched like IPv4 ones
+    for peer in ('none', 'ipv6'):
+        for frm in (None, 'ok', 'bad'):
+            w = E.default_world()
+            w['peer'] = peer
+            w['ak'] = {'alice': [dict(key='K1', frm=frm, command='fromcmd')]}
+            S.append(('from_%s_peer_%s' % (frm, peer), w, [
+                ('req', dict(user='alice', method='publickey', key='K1', signed=True)), ('settle',),
+                ('complete', 0), ('settle',)]))
+    for cn in ('C1', 'C8'):
+        w = E.default_world()
+        w['peer'] = 'none'
+        w['ak'] = {'alice': [dict(key='CA1', ca=True, frm='ok' if cn == 'C1' else None)]}
+        S.append(('cert_address_check_no_peer_' + cn, w, [
+            ('req', dict(user='alice', method='publickey', key='cert:' + cn, signed=True)), ('settle',),
+            ('complete', 0), ('settle',)]))
+    # security keys: the user-presence table, for a plain sk key and through certificates
+    for nt in (False, True):
+        for up in (True, False):
+            w = E.default_world()
+            w['ak'] = {'alice': [dict(key='SK1', no_touch=nt)]}
+            S.append(('sk_key_waiver%d_up%d' % (nt, up), w, [
+                ('req', dict(user='alice', method='publickey', key='SK1', signed=True, up=up)), ('settle',),
+                ('complete', 0), ('settle',)]))
+            for cn in ('CS1', 'CS2'):
+                w = E.default_world()
+                w['ak'] = {'alice': [dict(key='CA1', ca=True, no_touch=nt)]}
+                S.append(('sk_cert_%s_ca_waiver%d_up%d' % (cn, nt, up), w, [
+                    ('req', dict(user='alice', method='publickey', key='cert:' + cn, signed=True, up=up)), ('settle',),
+                    ('complete', 0), ('settle',)]))
+    w = E.default_world()
+    w['pk_cb_supported'] = True
+    w['cb_key'] = [['alice', 'SK1']]
+    S.append(('sk_key_via_callback_no_touch', w, [
+        ('req', dict(user='alice', method='publickey', key='SK1', signed=True, up=False)), ('settle',),
+        ('complete', 0), ('settle',)]))
     # channel open before authentication
     S.append(('gate', E.default_world(), [('msg', dict(kind='chan_open')), ('settle',)]))
     # password change: PASSWD_CHANGEREQ, then the change request is accepted
